@@ -71,6 +71,15 @@ def scenario(tier):
         ignored = cm.make_ignored(cm.DEFAULT_IGNORES + pats, "R")
         fmts = sym.choose("formats", fsets)
         hs = fmts[::-1] if sym.flag("reverse_h") else fmts
+        if sym.flag("nested_history_at_d"):
+            # a nested history: its root hash is also recorded as directory entry of the parent and must follow the definition
+            r = b.run("create", root="R/d", h=["md5"], i=pats)
+            b.require(r.exit == 0, "setup-create", str(r))
+            r = b.run("create", root="R", h=hs, i=pats)
+            b.require(r.exit == 0 and r.exc is None, "create-exit-0", str(r))
+            check_dirhashes(b, b.manifests("R")[-1], "R", fmts, ignored, "parent of nested history")
+            check_dirhashes(b, b.manifests("R/d")[-1], "R/d", fmts, cm.make_ignored(cm.DEFAULT_IGNORES + pats, "R/d"), "nested history")
+            return
         r = b.run("create", root="R", h=hs, i=pats)
         b.require(r.exit == 0 and r.exc is None, "create-exit-0", str(r))
         m = b.manifests("R")[-1]
@@ -119,14 +128,15 @@ def scenario(tier):
 
 
 def harnesses(tier):
-    out = ["trees deeper than 2-3 levels", "nested histories (C08)"]
+    out = ["trees deeper than 2-3 levels", "nested histories deeper than one level (C08)"]
     return [
         Harness("c07-order", order_scenario(tier), frontier=4, budget_s=2400, backend={"symbolic_order": True},
+                real_opts={"content_seeds": 48},
                 what="create on root/{f1,f2?,d/{f3,f4},z/?}: recorded directory/root hashes = definition; digests are free values with "
                      "SYMBOLIC ORDER (the solver picks the order that exposes a missing or wrong sort)",
                 bounds={"tree": "root/{f1,f2?,d/{f3,f4(content may equal f3)%s},z/?}" % ("" if tier == "quick" else ",e/{f5}?"),
                         "format": "md5|c4 (quick), each of the six (thorough), one per run"}, outside=out),
-        Harness("c07-cmds", scenario(tier), frontier=5, budget_s=2400,
+        Harness("c07-cmds", scenario(tier), frontier=5, budget_s=2400, real_opts={"content_seeds": 12},
                 what="create, verify -dh -co, in-place rename / edit, second create: recorded and printed values = definition over "
                      "exactly the non-ignored entries; rename keeps content hash and changes structure hash; edit changes content hash",
                 bounds={"tree": "root/{f1,f2?,d/{f3,f4,skip.tmp?},z/?}", "formats": fsets_desc(tier), "digest order": "creation order (order-sensitivity is c07-order's job)",
